@@ -153,13 +153,20 @@ impl<'a> PrettyPrinter<'a> {
         ctx: Context,
         math_attach: MathAttach<'a>,
     ) -> ArenaDoc<'a> {
-        // Whether the last node was a hashed expression that ends with an identifier.
+        // Whether the last node was a hashed expression that ends with an identifier or keyword.
         let mut after_hashed_ident = false;
         self.convert_flow_like(ctx, math_attach.to_untyped(), |ctx, node| {
             if let Some(expr) = node.cast::<Expr>() {
                 // A hashed expression is converted in code mode.
                 after_hashed_ident = ctx.mode.is_code()
-                    && matches!(node.kind(), SyntaxKind::Ident | SyntaxKind::FieldAccess);
+                    && matches!(
+                        node.kind(),
+                        SyntaxKind::Ident
+                            | SyntaxKind::FieldAccess
+                            | SyntaxKind::Bool
+                            | SyntaxKind::None
+                            | SyntaxKind::Auto
+                    );
                 FlowItem::new(self.convert_expr(ctx, expr), false, after_hashed_ident)
             } else if node.kind() == SyntaxKind::Space {
                 FlowItem::none()
